@@ -111,7 +111,11 @@ func bigMul(ex *Exec, x, y BigVal) BigVal {
 			}
 			g := addFacets(ex.facetFor(x, m), ex.facetFor(y, m))
 			g.Reduced = false
-			return BigVal{I: ex.groupIval(g), G: g}
+			iv := ex.groupIval(g)
+			if x.I.Lo != nil && x.I.Lo.Sign() > 0 && y.I.Lo != nil && y.I.Lo.Sign() > 0 {
+				ex.assume(smt.Le(smt.I64(1), iv)) // an unreduced product of positive integers is positive
+			}
+			return BigVal{I: iv, G: g}
 		}
 	}
 	r := BigVal{I: smt.Mul(x.I, y.I)}
@@ -187,9 +191,12 @@ func (ex *Exec) bigExp(x, y BigVal, mv Value) BigVal {
 			}
 			return BigVal{I: smt.IntC(new(big.Int).Exp(xv, yv, mvv))}
 		}
-		if (xc && xv.Sign() == 0 && x.G == nil) || (x.I == m.I && x.G == nil) {
+		if (xc && xv.Sign() == 0 && x.G == nil) || (x.G == nil && m.I.Lo != nil && m.I.Lo.Sign() > 0 && smt.IsMultipleOf(x.I, m.I)) {
 			// 0^y mod m = 0 for y>0, 1 for y == 0  (also for the base m itself, which is 0 mod m)
-			return BigVal{I: smt.Ite(smt.Eq(y.I, smt.I64(0)), smt.I64(1), smt.I64(0))}
+			if ex.branch(smt.Eq(y.I, smt.I64(0))) {
+				return bigConst(1)
+			}
+			return bigConst(0)
 		}
 		if ex.modKind(m.I) == "" && x.G == nil && yc && yv.IsInt64() && yv.Int64() >= -8 && yv.Int64() <= 8 &&
 			m.I.Hi != nil && m.I.Hi.BitLen() <= 24 && m.I.Lo != nil && m.I.Lo.Sign() > 0 {
@@ -692,9 +699,22 @@ func registerBigModels(P *Program) {
 		z.V = BigVal{I: smt.Sub(smt.I64(-1), x.I)}
 		return args[0]
 	}
+	readOnly := map[string]bool{"Cmp": true, "CmpAbs": true, "Sign": true, "BitLen": true, "Bit": true, "Int64": true, "Uint64": true,
+		"IsInt64": true, "IsUint64": true, "Bytes": true, "String": true, "Text": true, "ProbablyPrime": true, "FillBytes": true,
+		"Append": true, "TrailingZeroBits": true, "Bits": true, "MarshalJSON": true, "MarshalText": true, "Format": true}
 	for name, f := range m {
-		f := f
+		f, name := f, name
 		P.models["(*math/big.Int)."+name] = func(ex *Exec, fn *ssa.Function, args []Value) (Value, bool) {
+			if ex.sched != nil {
+				// scheduler: the receiver is written (read by the read-only methods), big operands are read
+				for i, a := range args {
+					if p, ok := a.(Pointer); ok && p.C != nil {
+						if _, isBig := p.C.V.(BigVal); isBig {
+							ex.noteAccess(p.C, i == 0 && !readOnly[name])
+						}
+					}
+				}
+			}
 			return f(ex, args), true
 		}
 	}
